@@ -69,17 +69,52 @@ theorem C03_atten_mono_uniform (segs₁ segs₂ : List (ℝ × List ℝ))
     uniformAttenuation segs₂ ≤ uniformAttenuation segs₁ :=
   PropLemmas.uniform_atten_mono segs₁ segs₂ h
 
-/-- the hypothesis holds for the Antarctic ice model: on the valid depth range the temperature stays in
-`[−51.07 °C, 0 °C]` … -/
-theorem C03_antarctic_temp_range (z : ℝ) (h1 : -2850 ≤ z) (h2 : z ≤ 0) :
-    -51.07 ≤ antarcticTempC z ∧ antarcticTempC z ≤ 0 :=
+/-! ### the hypothesis "`L_att(z,·)` does not grow with `f`" for the three shipped ices.
+The attenuation-length functions and all their constants are regenerated from `pyrex/ice_model.py` on every run
+(`harness/extract/ice_consts.py` → `twin/IceFormulas.body`), so an edited coefficient re-opens these proofs. -/
+
+/-- Antarctic ice: on the valid depth range the temperature stays in `[−51.07 °C, 0 °C]` … -/
+theorem C03_antarctic_temp_range (z : ℝ) (h1 : ant_lo ≤ z) (h2 : z ≤ ant_hi) :
+    -51.07 ≤ ant_tempC z ∧ ant_tempC z ≤ 0 :=
   PropLemmas.antarctic_temp_range z h1 h2
 
-/-- … the attenuation length is positive and does not grow with frequency (two quadratic inequalities in
-the temperature, continuity at 1 GHz) -/
-theorem C03_L_antarctic_mono (z f₁ f₂ : ℝ) (h1 : -2850 ≤ z) (h2 : z ≤ 0) (hf1 : 0 < f₁) (hf : f₁ ≤ f₂) :
-    0 < antarcticAttenLength z f₂ ∧ antarcticAttenLength z f₂ ≤ antarcticAttenLength z f₁ :=
-  ⟨PropLemmas.L_antarctic_pos z f₂, PropLemmas.L_antarctic_mono_depth z f₁ f₂ h1 h2 hf1 hf⟩
+/-- … and `AntarcticIce.attenuation_length` (also used by `UniformIce`) is positive and does not grow with the
+frequency (two quadratic inequalities in the temperature, continuity at the 1 GHz split) -/
+theorem C03_L_antarctic_mono (z f₁ f₂ : ℝ) (h1 : ant_lo ≤ z) (h2 : z ≤ ant_hi) (hf1 : 0 < f₁) (hf : f₁ ≤ f₂) :
+    0 < attenAntarctic z f₂ ∧ attenAntarctic z f₂ ≤ attenAntarctic z f₁ :=
+  PropLemmas.L_antarctic_mono_depth z f₁ f₂ h1 h2 hf1 hf
+
+/-- `GreenlandIce.attenuation_length` (linear in `f`, floored at `min_alen`): at every depth -/
+theorem C03_L_greenland_mono (z f₁ f₂ : ℝ) (hf : f₁ ≤ f₂) :
+    0 < attenGreenland z f₂ ∧ attenGreenland z f₂ ≤ attenGreenland z f₁ :=
+  PropLemmas.L_greenland_mono z f₁ f₂ hf
+
+/-- `ArasimIce.attenuation_length` does not depend on the frequency … -/
+theorem C03_L_arasim_const (z f₁ f₂ : ℝ) : attenArasim z f₂ = attenArasim z f₁ :=
+  PropLemmas.L_arasim_const z f₁ f₂
+
+/-- … and is positive on the valid depth range -/
+theorem C03_L_arasim_mono (z f₁ f₂ : ℝ) (hz : -2850 ≤ z) :
+    0 < attenArasim z f₂ ∧ attenArasim z f₂ ≤ attenArasim z f₁ :=
+  PropLemmas.L_arasim_mono z f₁ f₂ hz
+
+/-- hence, along the sampled depths `zs` of any path inside the valid range, the attenuation lengths at
+`f₁ ≤ f₂` satisfy exactly the `Forall₂` hypothesis of `C03_atten_mono`, `C03_atten_mono_basic`,
+`C03_atten_mono_specialized`, `C03_atten_mono_uniform` — for all three shipped ices -/
+theorem C03_atten_lengths_shipped_ices (f₁ f₂ : ℝ) (hf1 : 0 < f₁) (hf : f₁ ≤ f₂) (zs : List ℝ) :
+    ((∀ z ∈ zs, ant_lo ≤ z ∧ z ≤ ant_hi) →
+      List.Forall₂ (fun L1 L2 => 0 < L2 ∧ L2 ≤ L1)
+        (zs.map fun z => attenAntarctic z f₁) (zs.map fun z => attenAntarctic z f₂))
+    ∧ List.Forall₂ (fun L1 L2 => 0 < L2 ∧ L2 ≤ L1)
+        (zs.map fun z => attenGreenland z f₁) (zs.map fun z => attenGreenland z f₂)
+    ∧ ((∀ z ∈ zs, -2850 ≤ z) →
+      List.Forall₂ (fun L1 L2 => 0 < L2 ∧ L2 ≤ L1)
+        (zs.map fun z => attenArasim z f₁) (zs.map fun z => attenArasim z f₂)) :=
+  ⟨fun h => PropLemmas.forall₂_lengths attenAntarctic f₁ f₂ zs
+      (fun z hz => PropLemmas.L_antarctic_mono_depth z f₁ f₂ (h z hz).1 (h z hz).2 hf1 hf),
+   PropLemmas.forall₂_lengths attenGreenland f₁ f₂ zs (fun z _ => PropLemmas.L_greenland_mono z f₁ f₂ hf),
+   fun h => PropLemmas.forall₂_lengths attenArasim f₁ f₂ zs
+      (fun z hz => PropLemmas.L_arasim_mono z f₁ f₂ (h z hz))⟩
 
 /-! ## Fresnel coefficients -/
 
